@@ -200,6 +200,15 @@ def runSave (cfg : Cfg) (body : Body) (plan : Plan) (fs : FS) (envIno : Nat) : O
 
 def noFaults : Plan := fun _ => .pass
 
+/-- `mode & ~umask` on the 12 permission bits -/
+def umaskOf (um mode : Nat) : Nat := mode &&& (0o7777 ^^^ (um &&& 0o7777))
+
+/-- the permission bits of the part file's inode as determined by the events so far -/
+def modeAfter (um : Nat) (cur : Option Nat) : Ev → Option Nat
+  | .openPart _ _ md => some (umaskOf um md)
+  | .chmodPart md => some md
+  | _ => cur
+
 /-- the bytes a complete save puts at the destination -/
 def newContent (body : Body) : Bytes := (body.writes.map (·.1)).flatten
 
